@@ -238,12 +238,13 @@ def extra_tolerance_rules(facts, rep, rule="C10-EXTRA"):
             o = outcome(p)
             if v == io:
                 # goes on: something is decided after it, or the path ends in success
-                if idx[0] + 1 < len(ds) or o[0] == "Ok":
+                if [a for a, _ in ds[idx[0] + 1:] if not (re.search(A_RES, a) or re.search(A_ERR, a))] or o[0] == "Ok":
                     tolerated += 1
                 else:
                     bad.append("Io error ends the parse")
             else:
-                if o[0] in ("Err", "ErrProp") and idx[0] + 1 == len(ds):
+                later = [a for a, _ in ds[idx[0] + 1:] if not (re.search(A_RES, a) or re.search(A_ERR, a))]   # re-tests of the same result (drop elaboration) decide nothing
+                if o[0] in ("Err", "ErrProp") and not later and any(x[0] == "call" and x[1].endswith("parse_extra_field") for x in walk(o[1])):
                     propagated += 1
                 else:
                     bad.append("a non-I/O extra-field error is swallowed")
